@@ -4,7 +4,7 @@
    C18/Model.v ([run_req pid request kernel] = (answer, kernel afterwards)); specification: C18/Spec.v.
    [kget pid k] = the kernel's entry for pid; [kupd pid f k] changes that one entry by f;
    [set_nice/set_ioprio/set_mask/set_rlim] change one field of an entry. *)
-From PV Require Import C18.Spec C18.Handle C18.Legacy C18.Proofs C18.ProofsReq C18.ProofsElig C18.ProofsThm C18.ProofsParse C18.ProofsHandle.
+From PV Require Import C18.Spec C18.Handle C18.Legacy C18.Proofs C18.ProofsReq C18.ProofsElig C18.ProofsThm C18.ProofsParse C18.ProofsHandle C18.Call C18.ProofsCall.
 
 (* the packing of proc.c ((int)((unsigned)class << 13 | (unsigned)data)) loses nothing: for every
    class below 2^18 and every 13-bit data value the word is class*8192+data, fits an int and
@@ -306,3 +306,49 @@ Theorem C18_hcall_meets_spec : forall h occ r k exp, wf_kernelb k = true ->
   spec_hcall h occ r k = Some exp -> fst (fst (hcall h occ r k)) = exp.
 Proof. exact hcall_meets_spec. Qed.
 Print Assumptions C18_hcall_meets_spec.
+
+(* CALL FORMS (C18/Call.v): a call is positionals + keywords, bound as Python binds them to
+   nice(value=None) / ionice(ioclass=None, value=None) / cpu_affinity(cpus=None) /
+   rlimit(resource, limits=None); [pcall] = bind, read the bound values as a request
+   ([option] = "is not None"), then the handle call above. *)
+Local Open Scope string_scope.
+
+(* every spelling of the same arguments binds to the same values; an omitted optional is None *)
+Theorem C18_bind_forms : forall a b,
+  bind MNice {| c_pos := [a]; c_kw := [] |} = Val [a] /\ bind MNice {| c_pos := []; c_kw := [("value", a)] |} = Val [a]
+  /\ bind MIonice {| c_pos := [a; b]; c_kw := [] |} = Val [a; b]
+  /\ bind MIonice {| c_pos := []; c_kw := [("ioclass", a); ("value", b)] |} = Val [a; b]
+  /\ bind MIonice {| c_pos := []; c_kw := [("value", b); ("ioclass", a)] |} = Val [a; b]
+  /\ bind MIonice {| c_pos := [a]; c_kw := [("value", b)] |} = Val [a; b]
+  /\ bind MIonice {| c_pos := []; c_kw := [("value", b)] |} = Val [PNone; b]
+  /\ bind MIonice {| c_pos := [a]; c_kw := [] |} = Val [a; PNone]
+  /\ bind MAffinity {| c_pos := [a]; c_kw := [] |} = Val [a] /\ bind MAffinity {| c_pos := []; c_kw := [("cpus", a)] |} = Val [a]
+  /\ bind MRlimit {| c_pos := [a; b]; c_kw := [] |} = Val [a; b]
+  /\ bind MRlimit {| c_pos := []; c_kw := [("resource", a); ("limits", b)] |} = Val [a; b]
+  /\ bind MRlimit {| c_pos := [a]; c_kw := [("limits", b)] |} = Val [a; b]
+  /\ bind MRlimit {| c_pos := [a]; c_kw := [] |} = Val [a; PNone].
+Proof. intros a b. destruct (bind_forms a b) as [H1 [H2 [_ [H4 [H5 [H6 [H7 [H8 [_ [H10 [_ [H12 [H13 [_ [H15 [H16 [_ [H18 [H19 _]]]]]]]]]]]]]]]]]]].
+  repeat split; assumption. Qed.
+Print Assumptions C18_bind_forms.
+
+(* the outcome is a function of the bound arguments only *)
+Theorem C18_call_form_irrelevant : forall h occ m c1 c2 k vals,
+  bind m c1 = Val vals -> bind m c2 = Val vals -> pcall h occ m c1 k = pcall h occ m c2 k.
+Proof. exact call_form_irrelevant. Qed.
+Print Assumptions C18_call_form_irrelevant.
+
+(* get or set is decided by "is not None" on the bound deciding argument (value / ioclass / cpus /
+   limits): 0, [] and IOPRIO_CLASS_NONE are sets (Example falsy_values_are_sets) *)
+Theorem C18_set_iff_not_none : forall m vals r, to_req m vals = Val r ->
+  guarded r = negb (is_none (deciding m vals)).
+Proof. exact set_iff_not_none. Qed.
+Print Assumptions C18_set_iff_not_none.
+
+(* in every call form a set never touches a recycled pid (or the arguments have a type the model
+   does not cover) *)
+Theorem C18_pcall_recycled_no_syscall : forall h st m c k vals,
+  bind m c = Val vals -> is_none (deciding m vals) = false -> st <> h_ident h ->
+  pcall h (Some st) m c k = OutOfModel
+  \/ exists h', pcall h (Some st) m c k = Val (Exc NoSuchProcess, k, h', false).
+Proof. exact pcall_recycled_no_syscall. Qed.
+Print Assumptions C18_pcall_recycled_no_syscall.
